@@ -11,7 +11,7 @@ AxesOf(nd) == IF nd = 1 THEN {<<0>>} ELSE {<<0>>, <<1>>, <<0, 1>>}
 VARIABLES shape, axes, flen, mode, L
 vars == <<shape, axes, flen, mode, L>>
 Init == /\ shape \in Shapes1 /\ axes \in AxesOf(Len(shape)) /\ flen \in FLens /\ mode \in Modes /\ L \in 0..3
-Next == UNCHANGED vars
+Next == FALSE /\ UNCHANGED vars
 Spec == Init /\ [][Next]_vars
 Lay == Layout(shape, axes, flen, mode, L)
 TilesInv   == Tiles(Lay)
@@ -19,10 +19,23 @@ FlatInv    == FlattenUnflattenId(Lay)
 SizeInv    == SizeLaw(shape, axes, flen, mode, L)
 CropInv    == CropLaw(shape, axes, flen, mode, L)
 KeysInv    == Len(Lay) = 1 + L * (2 ^ Len(axes) - 1)
-Export ==
+Export1 ==
   Serialize(ToJson([shape |-> shape, axes |-> axes, flen |-> flen, mode |-> mode, L |-> L,
                     total |-> Total(Lay),
                     blocks |-> Tup([i \in 1..Len(Lay) |-> <<Lay[i].lev, Lay[i].key, Lay[i].shape, Lay[i].start, Lay[i].stop>>])])
+            \o "\n", IOEnv.OUT_FILE,
+            [format |-> "TXT", charset |-> "UTF-8",
+             openOptions |-> <<"WRITE", "CREATE", "APPEND">>]).exitValue = 0
+\* grouped export: one state per shape (the representative with the first axes / filter / mode / level),
+\* one JSON line holding the layouts of ALL configurations of that shape (one file operation per shape)
+CaseRec(sh, ax, fl, mo, lv) ==
+  LET lay == Layout(sh, ax, fl, mo, lv)
+  IN  [shape |-> sh, axes |-> ax, flen |-> fl, mode |-> mo, L |-> lv, total |-> Total(lay),
+       blocks |-> Tup([i \in 1..Len(lay) |-> <<lay[i].lev, lay[i].key, lay[i].shape, lay[i].start, lay[i].stop>>])]
+IsRep == axes = <<0>> /\ flen = 2 /\ mode = "other" /\ L = 0
+Export ==
+  (~IsRep) \/
+  Serialize(ToJson({CaseRec(shape, ax, fl, mo, lv) : ax \in AxesOf(Len(shape)), fl \in FLens, mo \in Modes, lv \in 0..3})
             \o "\n", IOEnv.OUT_FILE,
             [format |-> "TXT", charset |-> "UTF-8",
              openOptions |-> <<"WRITE", "CREATE", "APPEND">>]).exitValue = 0
